@@ -14,7 +14,7 @@ Four work lists, all indexed so that they shard:
 """
 from __future__ import annotations
 
-from .. import c18_depth as D, c18_env as E, c18_scope as SC, snap as S
+from .. import c18_depth as D, c18_env as E, c18_scope as SC, model as M, snap as S
 from ..evidence import Run, canon_hash
 from ..gen import build as B
 
@@ -22,7 +22,7 @@ PID = "C18"
 SHARDS = {"quick": 8, "thorough": 16}
 SHARD_TIMEOUT = {"quick": 600, "thorough": 1700}
 N_SAMPLED = {"quick": 400, "thorough": 12000}
-N_DEPTH = {"quick": 1200, "thorough": 40000}
+N_DEPTH = {"quick": 1200, "thorough": 30000}
 N_ENV = {"quick": 16, "thorough": 108}
 
 
@@ -196,6 +196,19 @@ def _relations(run, backend, kind, spec, table, muts, lazy, schemas, obj):
         run.count(f"undecided:internal-exception:{kind}")
         return
     run.count(f"depth:{kind}:class:schema_{vs}/data_{vd}")
+    if kind == "pandas":
+        # cross-check (evidence only, never a verdict of this property): the
+        # reference model's reading of schema_part(S) against full validation
+        try:
+            mv = M.evaluate(D.schema_part(spec), table).accept
+        except Exception:  # noqa: BLE001
+            mv = None
+        if mv is None:
+            run.count("depth:model:undecided")
+        elif mv == (vs == "accept"):
+            run.count("depth:model:agrees-with-schema_part-verdict")
+        else:
+            run.count("undecided:model-disagrees-with-full-validation(C01)")
 
     def rel(name, holds, depth_for_errors, mech_backend):
         run.count(f"depth:{name}:evaluated")
